@@ -91,7 +91,7 @@ static void locate(void)
 #define OP_PUSH_PRIO 1
 #define OP_POP_BEST 2
 #define OP_NEW 3
-#define OP_OCC 4
+#define OP_SEQ 4
 
 int main(void)
 {
@@ -165,6 +165,34 @@ int main(void)
 #define W1 "pop_best from a full buffer, best not in slot 0"
 #define W2 "pop_best from an empty buffer"
 #define W3 "pop_best: single task"
+#elif OP == OP_SEQ
+    /* short history on the (array based) buffer: empty buffer, one push_all_by_priority of a sorted ring,
+     * then pop_best until NULL: every task comes back exactly once (popped or handed to the parent),
+     * pops come out in non-increasing priority order */
+    build(1, 1);
+    for (int i = 0; i < HBSZ; i++) { VASSUME(!occ[i]); }
+    parsec_hbbuffer_push_all_by_priority(&B, (parsec_list_item_t*)TP(HBSZ + 1), 0);
+    locate();
+    VASSERTM(ringok && pcalls <= 1, "seq: overflow ring well formed");
+    int popped[NT + 1], npop = 0, last = 0, mono = 1;
+    for (int k = 0; k <= NT; k++) popped[k] = 0;
+    for (int it = 0; it < HBSZ + 1; it++) {
+        parsec_list_item_t *r = parsec_hbbuffer_pop_best(&B, parsec_execution_context_priority_comparator);
+        if (r == 0) break;
+        int k = IDX(r);
+        VASSERTM(k > HBSZ && k <= HBSZ + m, "seq: pop_best returns one of the pushed tasks");
+        if (k >= 1) { popped[k]++; if (npop > 0 && prio[k] > last) mono = 0; last = prio[k]; }
+        npop++;
+    }
+    VASSERTM(parsec_hbbuffer_pop_best(&B, parsec_execution_context_priority_comparator) == 0, "seq: buffer empty after at most `size` pops");
+    VASSERTM(npop == (m < sz ? m : sz), "seq: min(size, pushed) tasks were kept in the buffer");
+    VASSERTM(mono, "seq: pop_best returns tasks in non-increasing priority order");
+    for (int j = 1; j <= NRING; j++) if (j <= m) VASSERTM(popped[HBSZ + j] + inpar[HBSZ + j] == 1, "seq: every pushed task is returned exactly once (by pop_best or to the parent)");
+    for (int j = 1; j <= NRING; j++) if (j <= m && inpar[HBSZ + j]) VASSERTM(npop == 0 || prio[HBSZ + j] <= last, "seq: tasks sent to the parent are not better than any task kept");
+    w1 = (sz == HBSZ && m == NRING && NRING > HBSZ); w2 = (sz >= 2 && m == 1); w3 = (sz == 1 && m >= 2);
+#define W1 "seq: full buffer and overflow"
+#define W2 "seq: one task in a larger buffer"
+#define W3 "seq: one slot"
 #elif OP == OP_NEW
     /* base case: a new buffer is empty, remembers its parent; then a first push lands in slot 0 */
     size_t n = (size_t)IN_RANGE(1, HBSZ);
